@@ -6,3 +6,4 @@ import L21.Props.C02
 #print axioms L21.Gds.c02_framing_record
 #print axioms L21.Gds.c02_framing
 #print axioms L21.Gds.c02_ends_with_endlib
+#print axioms L21.Gds.c02_grammar
